@@ -26,6 +26,10 @@ import (
 
 const Root = "/verif"
 
+// Out is the check's real standard output. While a check runs, os.Stdout is pointed at /dev/null because the
+// library itself prints debug lines to it (state resolution v2.1 does); only the harness writes results.
+var Out = os.Stdout
+
 type finding struct {
 	Key  string
 	What string
@@ -77,6 +81,9 @@ func Main(id, level string, body func(r *Run)) {
 	replay := flag.String("replay", "", "replay file")
 	flag.Parse()
 	logrus.SetOutput(io.Discard) // the library logs warnings on scripted faults; they are not results
+	if devnull, err := os.OpenFile(os.DevNull, os.O_WRONLY, 0); err == nil {
+		os.Stdout = devnull
+	}
 	if *tier == "" {
 		*tier = "quick"
 	}
@@ -236,11 +243,11 @@ func (r *Run) Replaying() bool {
 		}
 	}
 	if first != "<nil>" {
-		fmt.Printf("replay reproduces: %s\n", first)
-		fmt.Printf("VIOLATION property=%s replay=%s\n", r.ID, r.ReplayPath)
+		fmt.Fprintf(Out, "replay reproduces: %s\n", first)
+		fmt.Fprintf(Out, "VIOLATION property=%s replay=%s\n", r.ID, r.ReplayPath)
 		os.Exit(1)
 	}
-	fmt.Println("replay: violation does not reproduce on this tree")
+	fmt.Fprintln(Out, "replay: violation does not reproduce on this tree")
 	os.Exit(0)
 	return true
 }
@@ -423,26 +430,26 @@ func (r *Run) finish() {
 		keys = append(keys, k)
 	}
 	sort.Strings(keys)
-	fmt.Printf("%s tier=%s evaluations=%d distinct_nontrivial=%d states=%d transitions=%d outcomes=%d exhaustive=%v wall=%.1fs\n",
+	fmt.Fprintf(Out, "%s tier=%s evaluations=%d distinct_nontrivial=%d states=%d transitions=%d outcomes=%d exhaustive=%v wall=%.1fs\n",
 		r.ID, r.Tier, evals, len(r.nontrivial), states, trans, len(r.outcomes), r.exhaustive, wall)
 	for _, k := range keys {
-		fmt.Printf("  %s=%d\n", k, r.counters[k])
+		fmt.Fprintf(Out, "  %s=%d\n", k, r.counters[k])
 	}
 	for _, c := range r.caps {
-		fmt.Printf("  CAP: %s\n", c)
+		fmt.Fprintf(Out, "  CAP: %s\n", c)
 	}
 	for _, f := range r.findings {
 		if f.hits.Load() > 0 {
-			fmt.Printf("KNOWN-FINDING: property=%s %s [key=%q, %d occurrences]\n", r.ID, f.What, f.Key, f.hits.Load())
+			fmt.Fprintf(Out, "KNOWN-FINDING: property=%s %s [key=%q, %d occurrences]\n", r.ID, f.What, f.Key, f.hits.Load())
 		}
 	}
 	if len(r.violations) > 0 {
 		for _, v := range r.violations {
-			fmt.Printf("  violation: %s :: %s\n", v.Key, v.What)
+			fmt.Fprintf(Out, "  violation: %s :: %s\n", v.Key, v.What)
 		}
-		fmt.Printf("  (%d violating cases in total, %d written; by class: %v)\n", r.nViol, len(r.violations), r.violClass)
+		fmt.Fprintf(Out, "  (%d violating cases in total, %d written; by class: %v)\n", r.nViol, len(r.violations), r.violClass)
 		for _, v := range r.violations {
-			fmt.Printf("VIOLATION property=%s replay=%s\n", r.ID, v.Replay)
+			fmt.Fprintf(Out, "VIOLATION property=%s replay=%s\n", r.ID, v.Replay)
 		}
 		os.Exit(1)
 	}
